@@ -232,6 +232,7 @@ pub proof fn lemma_lvl_of(z: Seq<ZoomInfo>, k: int)
     if k < c { assert(z[k].resolution < z[c].resolution); }
 }
 //@extract fn bigtools/src/bbi/bbiwrite.rs write_zooms
+//@rule R16
 //@rule R5
 //@rule R6 min=1
 //@rule R8
